@@ -164,9 +164,11 @@ func (e *Eval) Prepare(flags ...[]byte) error {
 	// variable, so that the virtual machine knows it should
 	// run a series of optimizations.
 	//
-	if optimize {
-		e.environment.Set("OPTIMIZE", &object.Boolean{Value: true})
-	}
+	//
+	// (We always store the flag, so that a second call to Prepare which
+	// asks for no optimization undoes what an earlier call asked for.)
+	//
+	e.environment.Set("OPTIMIZE", &object.Boolean{Value: optimize})
 
 	//
 	// Now we're done, construct a VM with the bytecode and constants
